@@ -68,6 +68,14 @@ def run_p(seed, tier, replay=None):
             violations.append({"what": f"the dispatch queue is not a permutation of the test list: missing {sorted(set(want) - set(got))[:5]} extra/duplicated {[x for x in got if got.count(x) > 1 or x not in want][:5]}",
                                "payload": {"stream": [b, args], "line_index": idx, "request": req, "impl": impl}, "kind": "queue-perm"})
         if len(want) >= 3: nt.add(req)
+    # the attempt loop's delay iterator must never fail, however long a test keeps failing: a panic there kills the unit between
+    # attempts and the test is never reported finished (long retry chains of the p_exec stream)
+    rb = common.run_streams([("p_exec", [seed, 50])])
+    for (b, args, idx, req, impl) in rb.cases:
+        if req.startswith("backoff ") and impl == "panic":
+            violations.append({"what": f"the attempt loop's delay iterator panics for the retry policy `{req}` (count {req.split(' ')[2]}): the unit dies between attempts and its test is never reported finished",
+                               "payload": {"stream": [b, args], "line_index": idx, "request": req, "impl": impl}, "kind": "backoff-panic"})
+    r.broken += rb.broken
     r.broken += rp.broken
     for k, v in r2.dist.items(): r.dist["sched:" + k] = v
     samples = [f"{q}  =>  {i[:300]}" for (_, q, i) in items[:2]] + [f"{q}  =>  {i}" for (_, q, i) in items2[:2]]
